@@ -2,16 +2,23 @@
 
 R07.1 decision table of PageFeatureProcessor._apply_pagination_borders (+helpers) over every
 configuration of (first, last, header list, footnote/source presence, as_table, placement) against
-the documented three-tier hierarchy; R07.2 header top edge site in PageRenderer._render_column_headers;
+the documented three-tier hierarchy; R07.2 header top edge in PageRenderer._render_column_headers;
 R07.3 consumers of the component border override; R07.4 per-page attributes are a fresh deep copy and
 BroadcastValue.to_list/update_cell create per-row lists (no aliasing between rows); R07.5 multi-section
-first/last clearing.
+first/last clearing; R07.6 every page goes through the processor before it is rendered.
+
+R07.2-R07.5 do not look at statement shapes: the functions are evaluated (FlowDT of c06: the syntax tree is
+interpreted over symbolic documents / small concrete models, nothing of the repository is imported) and the rules
+compare the stores, copies and calls that result.  R07.6 is a path property of the page loop (CFG).
 """
 from __future__ import annotations
 
 import ast
 import itertools
 
+import re
+
+from ..astmatch import alternatives, assignments, leaves
 from ..dtab import DT, NeedAtom, Sym, Unsupported
 from ..pm import AnalysisError, dotted, unparse, walk_no_nested
 from ..report import Ctx
@@ -164,104 +171,290 @@ def r07_1(ctx: Ctx) -> None:
         raise AnalysisError(f"only {n_cfg} configurations enumerated (>= 300 expected): atoms were not recognised")
 
 
+
+
+# ---------------------------------------------------------------------------------------------------- helpers
+
+def _flow(pm, **kw):
+    from .c06 import FlowDT
+    return FlowDT(pm, **kw)
+
+
+def _table(ctx: Ctx, rule: str, dt, fi, args, what: str, limit: int = 6000):
+    try:
+        return dt.table(fi, args, limit=limit)
+    except (Unsupported, NeedAtom) as e:
+        ctx.gap(rule, f"{what} is outside the interpretable subset ({str(e)[:120]})")
+        return None
+
+
+def _params(fi) -> list[str]:
+    return [a.arg for a in fi.node.args.args if a.arg not in ("self", "cls")]
+
+
+def _copies(r) -> dict[str, tuple[str, str]]:
+    """copy path -> (original path, deep|shallow) of one run"""
+    return {e[1]: (e[2], e[3]) for e in r.effects if e[0] == "copy"}
+
+
+# ---------------------------------------------------------------------------------------------------- R07.2
+
 def r07_2(ctx: Ctx) -> None:
+    """_render_column_headers evaluated on the three documented shapes of rtf_column_header (flat list, nested list,
+    single header), two headers each: which header copy receives rtf_page.border_first as the top edge of its row 0,
+    under which page flags"""
     pm = ctx.pm
     fi = pm.func("PageRenderer._render_column_headers")
-    stores = [a for a in ast.walk(fi.node) if isinstance(a, ast.Assign) and any(isinstance(t, ast.Attribute) and t.attr == "border_top" for t in a.targets)]
-    if len(stores) != 1:
-        ctx.violation("R07.2", fi.short, f"border_top stores x{len(stores)}", fi.where(), "the header top edge is not set at exactly one site")
+    ps = _params(fi)
+    if len(ps) != 2:
+        ctx.gap("R07.2", "_render_column_headers no longer takes (document, page)")
         return
-    st = stores[0]
-    guard = None
-    p = getattr(st, "_parent", None)
-    while p is not None and p is not fi.node:
-        if isinstance(p, ast.If):
-            guard = p.test
-        p = getattr(p, "_parent", None)
-    gtxt = unparse(guard) if guard is not None else "<none>"
-    parts = {x.strip() for x in gtxt.replace("\n", " ").split(" and ")}
-    need = {"page.is_first_page", "i == 0", "document.rtf_page.border_first"}
-    val = unparse(st.value)
-    ok_guard = need <= parts
-    ok_val = "update_row(0, [document.rtf_page.border_first]" in val and unparse(st.targets[0]).startswith("header_copy.")
-    ctx.instance("R07.2", fi.where(st), f"header top edge: guard `{gtxt}`; value `{val[:90]}`")
-    if not ok_guard:
-        ctx.violation("R07.2", fi.short, "guard " + gtxt, fi.where(st), f"rtf_page.border_first is applied to the header under `{gtxt}`; required: first page ∧ first header row ∧ border configured")
-    if not ok_val:
-        ctx.violation("R07.2", fi.short, "value " + val[:60], fi.where(st), "the top edge of the first header row does not receive rtf_page.border_first on row 0 of the per-page header copy")
+    doc, pg = ps
+    h0, h1 = Sym("H0", "RTFColumnHeader"), Sym("H1", "RTFColumnHeader")
+    shapes = [("flat list", [h0, h1], (False, True, False)), ("nested list", [[h0], [h1]], (True, False, False)), ("single header", h0, (False, False, True))]
+    bad: dict[str, str] = {}
+    applied = 0
+    rows_n = 0
+    for name, value, (nested, flat, single) in shapes:
+        for regime in (True, False):
+            dt = _flow(pm, atoms={f"{pg}.is_first_page": [True, False]}, classes={doc: "RTFDocument", pg: "PageContext", "self": "PageRenderer"},
+                       preset={f"{doc}.rtf_column_header": value}, relevant=("is_first_page", "rtf_page.border_first"), regime=regime, max_atoms=30,
+                       effect_calls={"encode_column_header"}, opaque={"update_row", "to_list"},
+                       call_model={"is_nested_header_list": lambda a, k, x=nested: x, "is_flat_header_list": lambda a, k, x=flat: x, "is_single_header": lambda a, k, x=single: x})
+            rows = _table(ctx, "R07.2", dt, fi, {"self": Sym("self", "PageRenderer"), doc: Sym(doc, "RTFDocument"), pg: Sym(pg, "PageContext")}, "_render_column_headers")
+            if rows is None:
+                return
+            for v, r in rows:
+                if r.raised is not None:
+                    continue
+                rows_n += 1
+                first = v.get(f"{pg}.is_first_page")
+                cp = _copies(r)
+                for e in r.effects:
+                    if e[0] != "store" or e[2] != "border_top":
+                        continue
+                    base, val = e[1], str(e[3])
+                    if "rtf_page.border_first" not in val:
+                        continue
+                    applied += 1
+                    if base not in cp:
+                        bad.setdefault("value written into " + base, f"rtf_page.border_first is written into `{base}.border_top`, the document's own header, instead of the per-page copy")
+                        continue
+                    orig = cp[base][0]
+                    if first is not True:
+                        bad.setdefault("guard " + ("ignores is_first_page" if first is None else "applies on later pages"),
+                                       f"rtf_page.border_first is applied to the header with is_first_page={first}; required: first page ∧ first header row ∧ border configured")
+                    if orig != "H0":
+                        bad.setdefault("guard applies to header " + orig, f"rtf_page.border_first is applied to header `{orig}` ({name}); only the first header row carries the page's top edge")
+                    if v.get(f"bool({doc}.rtf_page.border_first)") is False:
+                        bad.setdefault("guard applies an empty border", "the header top edge is overwritten although rtf_page.border_first is empty")
+                    m = re.fullmatch(r"BroadcastValue\(…\)#(\d+)\.update_row\((.+?), (.+)\)", val)
+                    if not m:
+                        ctx.gap("R07.2", f"the value stored as the header's top edge (`{val[:80]}`) could not be re-identified")
+                        continue
+                    cons = r.effects[int(m.group(1)) - 1]
+                    src = str(cons[2].get("value")) if cons[0] == "construct" else "?"
+                    if m.group(2) != "0":
+                        bad.setdefault("value row " + m.group(2), f"rtf_page.border_first is written to row {m.group(2)} of the header, expected row 0")
+                    if src != f"{base}.border_top":
+                        bad.setdefault("value built from " + src[:40], f"the header's top edges are rebuilt from `{src}`, expected the copy's own border_top")
+                    if re.search(r"border_(last|top|bottom)\b", m.group(3)) or "rtf_body" in m.group(3):
+                        bad.setdefault("value " + m.group(3)[:60], f"row 0 of the header receives `{m.group(3)[:80]}`, expected rtf_page.border_first for every column")
+    ctx.instance("R07.2", fi.where(), f"header top edge: evaluated on 3 shapes of rtf_column_header x first/later page x border configured ({rows_n} paths); "
+                 f"rtf_page.border_first -> row 0 of the copy of the first header on the first page only: applied on {applied} path(s), {len(bad)} disagreement(s)")
+    if not applied:
+        ctx.gap("R07.2", "no path of _render_column_headers writes rtf_page.border_first into a header's border_top (site not re-identified)")
+    for k, msg in sorted(bad.items()):
+        ctx.violation("R07.2", fi.short, k, fi.where(), msg)
 
+
+# ---------------------------------------------------------------------------------------------------- R07.3
 
 def r07_3(ctx: Ctx) -> None:
     pm = ctx.pm
-    r = pm.func("PageRenderer.render")
+    from .c06 import render_table
+    t = render_table(ctx)
+    r = t["fi"]
     for comp, callee in (("footnote", "encode_footnote"), ("source", "encode_source")):
-        calls = [c for c in walk_no_nested(r.node) if isinstance(c, ast.Call) and dotted(c.func).split(".")[-1] == callee]
-        ok = False
-        if len(calls) == 1:
-            kw = {k.arg: unparse(k.value) for k in calls[0].keywords}
-            src = kw.get("border_style")
-            env = {unparse(a.targets[0]): unparse(a.value) for a in ast.walk(r.node) if isinstance(a, ast.Assign) and len(a.targets) == 1}
-            # border_style is assigned in both blocks; take the assignment in the same block
-            blk = getattr(calls[0], "_parent", None)
-            while blk is not None and not isinstance(blk, ast.If):
-                blk = getattr(blk, "_parent", None)
-            local = {unparse(a.targets[0]): unparse(a.value) for s in (blk.body if blk is not None else []) for a in ast.walk(s) if isinstance(a, ast.Assign)}
-            ok = src == "border_style" and local.get("border_style") == f"page.component_borders.get('{comp}')"
-            ctx.instance("R07.3", r.where(calls[0]), f"render: {callee}(border_style={local.get('border_style')})")
-        if not calls:
-            ctx.gap("R07.3", f"the call of {callee} could not be re-identified in PageRenderer.render")
-        elif not ok:
-            ctx.violation("R07.3", r.short, f"{callee} border override", r.where(), f"render does not pass page.component_borders['{comp}'] to {callee} as border_style")
+        # ---- producer side: render hands page.component_borders[comp] to the encoder
+        if t["error"]:
+            ctx.gap("R07.3", t["error"])
+        else:
+            seen = bad = 0
+            ex = None
+            for v, run, _seq, _g in t["rows"]:
+                for e in run.effects:
+                    if e[0] == "call" and e[1] == callee:
+                        seen += 1
+                        val = e[4].get("border_style", e[3][3] if len(e[3]) > 3 else None)
+                        if not re.fullmatch(r"\w+\.component_borders(\.get\(%s(, None)?\)|\[%s\])" % (comp, comp), str(val)):
+                            bad += 1
+                            ex = ex or str(val)
+            ctx.instance("R07.3", r.where(), f"render: {callee}(border_style=page.component_borders.get('{comp}')) on {seen} evaluated call(s), {bad} other value(s)")
+            if not seen:
+                ctx.gap("R07.3", f"the call of {callee} could not be re-identified in PageRenderer.render")
+            elif bad:
+                ctx.violation("R07.3", r.short, f"{callee} border override", r.where(), f"render passes `{ex}` to {callee} as border_style, not page.component_borders['{comp}']")
+        # ---- consumer side: the override becomes the bottom border of a copy of the component
         f = pm.func("RTFEncodingService." + callee)
-        t = unparse(f.node)
-        ok2 = "if border_style:" in t and "rtf_attrs = rtf_attrs.model_copy()" in t and "rtf_attrs.border_bottom = [[border_style]]" in t
-        ctx.instance("R07.3", f.where(), f"{callee}: override sets border_bottom of a copy: {ok2}")
-        if not ok2:
-            ctx.violation("R07.3", f.short, "override", f.where(), f"{callee} no longer applies the override as the bottom border of (a copy of) the component row")
+        ps = _params(f)
+        if len(ps) < 4 or "border_style" not in ps:
+            ctx.gap("R07.3", f"{callee} no longer takes a border_style override")
+            continue
+        cfg = ps[0]
+        dt = _flow(pm, classes={"self": "RTFEncodingService"}, effect_calls={"_encode", "_encode_text"}, relevant=("border_style",), regime=True, max_atoms=20)
+        rows = _table(ctx, "R07.3", dt, f, {"self": Sym("self", "RTFEncodingService"), **{p: Sym(p) for p in ps}}, callee)
+        if rows is None:
+            continue
+        bad2: dict[str, str] = {}
+        n_over = 0
+        for v, run in rows:
+            if run.raised is not None:
+                continue
+            over = v.get("bool(border_style)")
+            if over is None:
+                over = not v.get("border_style is None", True) if "border_style is None" in v else None
+            cp = _copies(run)
+            stores = [(e[1], e[2], e[3]) for e in run.effects if e[0] == "store" and str(e[2]).startswith("border")]
+            encs = [e for e in run.effects if e[0] == "call" and e[1] in ("_encode", "_encode_text")]
+            for base, attr, val in stores:
+                if base not in cp:
+                    bad2.setdefault("override written into the component", f"{callee} writes {attr} of `{base}` itself: the document's component is shared by all pages")
+            if over:
+                n_over += 1
+                hit = [(b, a, val) for b, a, val in stores if a == "border_bottom" and "border_style" in str(val)]
+                if not hit:
+                    bad2.setdefault("override", f"{callee} does not apply a given border_style as the bottom border of (a copy of) the component row")
+                else:
+                    b, a, val = hit[0]
+                    if val != [["border_style"]] and val != (("border_style",),):
+                        ctx.gap("R07.3", f"{callee}: the override is stored as `{val}` (expected one row, one cell)")
+                    if encs and any(e[2] != b for e in encs):
+                        bad2.setdefault("override not encoded", f"{callee} stores the override into `{b}` but encodes `{encs[0][2]}`")
+            elif over is False and any("border_style" in str(val) for _b, _a, val in stores):
+                bad2.setdefault("override", f"{callee} writes a border although no border_style was given")
+        ctx.instance("R07.3", f.where(), f"{callee}: a given border_style becomes border_bottom of a copy that is then encoded ({n_over} path(s) with override, {len(rows)} total): {len(bad2)} disagreement(s)")
+        if not n_over:
+            ctx.gap("R07.3", f"{callee}: no evaluated path consults the border_style override")
+        for k, msg in sorted(bad2.items()):
+            ctx.violation("R07.3", f.short, k, f.where(), msg)
+
+
+# ---------------------------------------------------------------------------------------------------- R07.4
+
+def _grid(name: str, nr: int, nc: int) -> list[list[str]]:
+    return [[f"{name}{i}{j}" for j in range(nc)] for i in range(nr)]
 
 
 def r07_4(ctx: Ctx) -> None:
     pm = ctx.pm
+    # ---- (a) the attributes the page borders are written into are a deep copy of the shared ones
     fi = pm.func(FN)
-    t = unparse(fi.node)
-    ok = "page_attrs = deepcopy(base_attrs)" in t
-    ctx.instance("R07.4", fi.where(), f"per-page attributes are `deepcopy(base_attrs)`: {ok}")
-    if not ok:
-        ctx.violation("R07.4", fi.short, "no deepcopy", fi.where(), "page borders are written into attributes shared with other pages (no per-page deep copy)")
-    ap = pm.func("PageFeatureProcessor._apply_border_to_cell")
-    ta = unparse(ap.node)
-    ok = "BroadcastValue(value=current_borders, dimension=page_shape)" in ta and "update_cell(row_idx, col_idx, border_style)" in ta and \
-        "setattr(page_attrs, border_attr, border_broadcast.value)" in ta and "border_attr = f'border_{border_side}'" in ta
-    ctx.instance("R07.4", ap.where(), f"_apply_border_to_cell: expand to page shape, update one cell, store back: {ok}")
-    if not ok:
-        ctx.violation("R07.4", ap.short, "cell update", ap.where(), "a single edge is no longer written by expanding the attribute to the page shape and updating exactly (row, col)")
-    # to_list must build a fresh list per row; update_cell writes exactly [row][col] of it
-    tl = pm.func("BroadcastValue.to_list")
-    rets = [r for r in walk_no_nested(tl.node) if isinstance(r, ast.Return) and r.value is not None]
-    fresh = True
+    rets = [x for x in walk_no_nested(fi.node) if isinstance(x, ast.Return) and x.value is not None]
+    kinds = set()
     desc = []
-    for r in rets:
-        v = r.value
-        txt = unparse(v)
-        desc.append(txt[:60])
-        if isinstance(v, ast.Constant) or txt == "self.value":
-            continue        # None / the stored value itself when no dimension is requested
-        per_row = isinstance(v, ast.ListComp) and isinstance(v.elt, (ast.Subscript, ast.Call, ast.List, ast.ListComp, ast.BinOp))
-        if not per_row:
-            fresh = False
-    uses_mult = "* row_repeats" in unparse(tl.node)
-    ctx.instance("R07.4", tl.where(), f"BroadcastValue.to_list returns {desc}; every expanded row is a new list: {fresh}")
-    if not fresh:
-        ctx.violation("R07.4", tl.short, "aliased rows " + " | ".join(desc), tl.where(),
-                      "BroadcastValue.to_list can return rows that are the same list object (rows built by list repetition are aliases); "
-                      "writing one cell's border then changes that column in every row")
+    asg = assignments(fi.node)
+
+    def origins(e, seen=()):
+        """expressions a returned value starts from: follow names through their assignments, and the cell writer through its first argument"""
+        if isinstance(e, ast.Call) and dotted(e.func).split(".")[-1] == "_apply_border_to_cell" and e.args:
+            return origins(e.args[0], seen)
+        if isinstance(e, ast.Name) and e.id in asg:
+            if e.id in seen or len(seen) > 12:
+                return []                # the running value handed on: same object
+            out = []
+            for v in asg[e.id]:
+                out.extend(origins(v, seen + (e.id,)))
+            return out
+        return [e]
+    for rt in rets:
+        for a2 in origins(rt.value):
+            desc.append(unparse(a2)[:50])
+            if isinstance(a2, ast.Call) and dotted(a2.func).split(".")[-1] == "deepcopy":
+                kinds.add("deep")
+            elif isinstance(a2, ast.Call) and isinstance(a2.func, ast.Attribute) and a2.func.attr in ("model_copy", "copy"):
+                deep = next((k.value for k in a2.keywords if k.arg == "deep"), None)
+                kinds.add("deep" if isinstance(deep, ast.Constant) and deep.value is True else "shallow")
+            elif isinstance(a2, ast.Call) and dotted(a2.func).split(".")[-1] == "copy":
+                kinds.add("shallow")
+            elif isinstance(a2, (ast.Attribute, ast.BoolOp)) and any(x.endswith(("table_attrs", "rtf_body")) for x in leaves(a2)):
+                kinds.add("none")
+            else:
+                kinds.add("?")
+    ctx.instance("R07.4", fi.where(), f"per-page attributes returned by the border logic originate from {sorted(set(desc))[:4]}: {sorted(kinds)}")
+    if "shallow" in kinds or "none" in kinds:
+        ctx.violation("R07.4", fi.short, "no deepcopy", fi.where(), "page borders are written into attributes shared with other pages (no per-page deep copy: "
+                      + ("a shallow copy shares the nested border lists" if "shallow" in kinds else "the page's / document's own attributes are used") + ")")
+    elif kinds != {"deep"}:
+        ctx.gap("R07.4", f"where the per-page attributes of {FN} come from could not be re-identified ({sorted(set(desc))[:3]})")
+    # ---- (b) one edge = expand the attribute to the page shape, update exactly (row, col), store back
+    ap = pm.func("PageFeatureProcessor._apply_border_to_cell")
+    ps = _params(ap)
+    if len(ps) != 6:
+        ctx.gap("R07.4", "_apply_border_to_cell no longer takes (attrs, row, col, side, style, shape)")
+    else:
+        bad: dict[str, str] = {}
+        n = 0
+        for side in ("top", "bottom"):
+            dt = _flow(pm, classes={"self": "PageFeatureProcessor"}, effect_calls={"update_cell"}, relevant=("<none>",), regime=True, max_atoms=10)
+            args = {"self": Sym("self", "PageFeatureProcessor"), **{p: Sym(p) for p in ps}}
+            args[ps[3]] = side
+            rows = _table(ctx, "R07.4", dt, ap, args, "_apply_border_to_cell")
+            if rows is None:
+                break
+            for v, r in rows:
+                n += 1
+                cons = [(i + 1, e) for i, e in enumerate(r.effects) if e[0] == "construct" and e[1] == "BroadcastValue"]
+                upd = [e for e in r.effects if e[0] == "call" and e[1] == "update_cell"]
+                st = [e for e in r.effects if e[0] == "store" and e[1] == ps[0]]
+                if len(cons) != 1 or len(upd) != 1:
+                    ctx.gap("R07.4", f"_apply_border_to_cell: the expansion / single-cell update could not be re-identified ({len(cons)} BroadcastValue, {len(upd)} update_cell)")
+                    continue
+                k, c = cons[0]
+                if str(c[2].get("value")) != f"{ps[0]}.border_{side}" or str(c[2].get("dimension")) != ps[5]:
+                    bad.setdefault("cell update source", f"side {side}: the matrix is built from ({c[2].get('value')}, {c[2].get('dimension')}), expected ({ps[0]}.border_{side}, {ps[5]})")
+                if tuple(str(x) for x in upd[0][3]) != (ps[1], ps[2], ps[4]) or not upd[0][2].startswith("BroadcastValue(…)#%d" % k):
+                    bad.setdefault("cell update", f"side {side}: update_cell{tuple(upd[0][3])} on `{upd[0][2]}`, expected exactly ({ps[1]}, {ps[2]}, {ps[4]}) on the expanded matrix")
+                if not any(e[2] == f"border_{side}" and str(e[3]).startswith("BroadcastValue(…)#%d" % k) for e in st):
+                    bad.setdefault("cell update not stored", f"side {side}: the updated matrix is not stored back into {ps[0]}.border_{side} (stores: {[(e[2], e[3]) for e in st]})")
+                if isinstance(r.ret, Sym) and r.ret.path != ps[0]:
+                    bad.setdefault("cell update result", f"side {side}: returns `{r.ret.path}`, expected the updated attributes")
+        ctx.instance("R07.4", ap.where(), f"_apply_border_to_cell evaluated for top/bottom ({n} paths): expand border_<side> to the page shape, update one cell, store back: {len(bad)} disagreement(s)")
+        for k, msg in sorted(bad.items()):
+            ctx.violation("R07.4", ap.short, "cell update", ap.where(), "a single edge is no longer written by expanding the attribute to the page shape and updating exactly (row, col): " + msg)
+    # ---- (c) update_cell on concrete blocks: exactly one entry changes, the rows of the result are fresh lists
     uc = pm.func("BroadcastValue.update_cell")
-    tu = unparse(uc.node)
-    ok = "self.value = self.to_list()" in tu and "self.value[row_index][column_index] = cell_value" in tu
-    ctx.instance("R07.4", uc.where(), f"update_cell expands then writes [row][col]: {ok}")
-    if not ok:
-        ctx.violation("R07.4", uc.short, "update_cell", uc.where(), "update_cell no longer writes exactly value[row][col] of the expanded matrix")
-    # interior cells: no other store to border_* on the encode path outside the processor / renderer header copy / footnote override
+    ps = _params(uc)
+    if len(ps) != 3:
+        ctx.gap("R07.4", "BroadcastValue.update_cell no longer takes (row, column, value)")
+    else:
+        bad = {}
+        n = 0
+        for (nr, nc), dim, (ri, ci) in (((1, 1), (3, 2), (1, 0)), ((1, 2), (3, 2), (2, 1)), ((2, 2), (4, 2), (3, 0)), ((3, 2), (3, 2), (0, 1)), ((4, 2), (3, 2), (1, 1))):
+            block = _grid("b", nr, nc)
+            orig = [list(x) for x in block]
+            dt = _flow(pm, preset={"self.value": block, "self.dimension": dim}, max_atoms=6, root_cls="BroadcastValue")
+            rows = _table(ctx, "R07.4", dt, uc, {"self": Sym("self", "BroadcastValue"), ps[0]: ri, ps[1]: ci, ps[2]: "NEW"}, "BroadcastValue.update_cell")
+            if rows is None:
+                break
+            if len(rows) != 1 or rows[0][1].raised is not None:
+                ctx.gap("R07.4", f"BroadcastValue.update_cell is not decided on a {nr}x{nc} block ({rows[0][1].raised if rows else 'no path'})")
+                break
+            n += 1
+            out = rows[0][1].stores.get("self.value")
+            want = [[("NEW" if (i, j) == (ri, ci) else orig[i % nr][j % nc]) for j in range(dim[1])] for i in range(dim[0])]
+            tag = f"{nr}x{nc} block to {dim[0]}x{dim[1]}, cell ({ri}, {ci})"
+            if not (isinstance(out, list) and all(isinstance(x, list) for x in out)):
+                ctx.gap("R07.4", f"BroadcastValue.update_cell leaves value = `{str(out)[:60]}` ({tag})")
+                break
+            if out != want:
+                bad.setdefault("update_cell", f"{tag}: the matrix becomes {out}, expected {want} (exactly one entry written)")
+            elif dt.preset["self.value"] != orig and block != orig:
+                bad.setdefault("update_cell writes through", f"{tag}: the stored block itself was modified")
+        ctx.instance("R07.4", uc.where(), f"update_cell evaluated on {n} (block, shape, cell) models: expands, then writes exactly [row][col]: {len(bad)} disagreement(s)")
+        for k, msg in sorted(bad.items()):
+            ctx.violation("R07.4", uc.short, k, uc.where(), "update_cell no longer writes exactly value[row][col] of the expanded matrix: " + msg)
+    # ---- (d) interior cells: no other store to border_* on the encode path outside the processor / renderer header copy / footnote override
     allowed = {FN, "PageFeatureProcessor._apply_border_to_cell", "PageRenderer._render_column_headers", "RTFEncodingService.encode_footnote",
                "RTFEncodingService.encode_source", "RTFBody._set_border_defaults", "UnifiedRTFEncoder._encode_multi_section",
                "RTFEncodingService.prepare_dataframe_for_body_encoding"}
@@ -273,72 +466,260 @@ def r07_4(ctx: Ctx) -> None:
                         ctx.instance("R07.4", f2.where(a), f"{f2.short}: store to {tg.attr}", nontrivial=False)
                         if f2.short not in allowed:
                             ctx.violation("R07.4", f2.short, "store " + unparse(tg), f2.where(a), f"{f2.short} rewrites {tg.attr}; interior cells must carry exactly the user's borders")
+    # ---- (e) data cells read border_<side> of their own attributes at their own (row, col)
     enc = pm.func("TableAttributes._encode")
-    te = unparse(enc.node)
-    for side in ("left", "top", "bottom"):
-        ok = f"border_{side}=Border(style=get_broadcast_value('border_{side}', i, j))" in te
-        if not ok:
-            ctx.violation("R07.4", enc.short, f"border_{side} source", enc.where(), f"data cells do not take border_{side} from the attribute at their own (row, col)")
-    ok = "border_right = Border(style=BroadcastValue(value=self.border_right, dimension=dim).iloc(i, j))" in te
-    ctx.instance("R07.4", enc.where(), f"data cell borders read from border_left/top/bottom/right at (i, j): {ok}")
+    ps = _params(enc)
+    dt = _flow(pm, classes={"self": "TableAttributes"}, relevant=("<none>",), regime=True, max_atoms=30, opaque={"iloc", "_as_rtf", "calculate_lines", "row"})
+    args = {"self": Sym("self", "TableAttributes"), **{p: Sym(p) for p in ps}}
+    rows = _table(ctx, "R07.4", dt, enc, args, "TableAttributes._encode")
+    if rows is not None:
+        bad = {}
+        cells = 0
+        for v, r in rows:
+            eff = r.effects
+            idx = [e[1] for e in eff if e[0] == "loop-begin"]
 
+            def chain(ref):
+                m = re.fullmatch(r"Border\(…\)#(\d+)", str(ref))
+                if not m:
+                    return None
+                b = eff[int(m.group(1)) - 1]
+                m2 = re.fullmatch(r"BroadcastValue\(…\)#(\d+)\.iloc\((.+), (.+)\)", str(b[2].get("style")))
+                if not m2:
+                    return None
+                bv = eff[int(m2.group(1)) - 1]
+                return str(bv[2].get("value")), m2.group(2), m2.group(3)
+            for e in eff:
+                if e[0] != "construct" or e[1] != "Cell":
+                    continue
+                cells += 1
+                for side in ("left", "top", "bottom", "right"):
+                    ref = e[2].get(f"border_{side}")
+                    if ref is None and side == "right":
+                        continue
+                    got = chain(ref)
+                    if got is None:
+                        ctx.gap("R07.4", f"TableAttributes._encode: the source of a data cell's border_{side} (`{str(ref)[:60]}`) could not be re-identified")
+                        continue
+                    src, ri, ci = got
+                    if src != f"self.border_{side}":
+                        bad.setdefault(f"border_{side} source", f"data cells take border_{side} from `{src}`, expected the attribute border_{side}")
+                    elif len(idx) >= 2 and (idx[-2] not in ri or idx[-1] not in ci or idx[-1] in ri or idx[-2] in ci):
+                        bad.setdefault(f"border_{side} source", f"data cells take border_{side} at ({ri}, {ci}), expected their own (row, column)")
+        ctx.instance("R07.4", enc.where(), f"data cell borders read from border_left/top/bottom/right of the attributes at their own (i, j): {cells} cell construction(s), {len(bad)} disagreement(s)")
+        if not cells:
+            ctx.gap("R07.4", "TableAttributes._encode: no data cell construction was reached")
+        for k, msg in sorted(bad.items()):
+            ctx.violation("R07.4", enc.short, k, enc.where(), msg)
+
+
+# ---------------------------------------------------------------------------------------------------- R07.5
 
 def r07_5(ctx: Ctx) -> None:
+    """multi-section documents evaluated on models of 1, 2, 3 sections: the page configuration section k is encoded with is
+    a copy of rtf_page whose border_first is cleared iff k > 0 and whose border_last is cleared iff k < n-1"""
     pm = ctx.pm
     fi = pm.func("UnifiedRTFEncoder._encode_multi_section")
-    t = unparse(fi.node)
-    a = "if i > 0:\n            section_page.border_first = None" in t.replace("    " * 3, "            ")
-    txt = t
-    ok1 = "section_page = document.rtf_page.model_copy()" in txt and "section_page.border_first = None" in txt and "section_page.border_last = None" in txt
-    g1 = g2 = None
-    for n in ast.walk(fi.node):
-        if isinstance(n, ast.If) and any(isinstance(s, ast.Assign) and "section_page.border_first" in unparse(s) for s in n.body):
-            g1 = unparse(n.test)
-        if isinstance(n, ast.If) and any(isinstance(s, ast.Assign) and "section_page.border_last" in unparse(s) for s in n.body):
-            g2 = unparse(n.test)
-    ctx.instance("R07.5", fi.where(), f"multi-section: border_first cleared under `{g1}`, border_last cleared under `{g2}`, on a copy of rtf_page: {ok1}")
-    if not ok1 or g1 != "i > 0" or g2 != "i < len(df_list) - 1":
-        ctx.violation("R07.5", fi.short, f"section borders {g1} / {g2}", fi.where(),
-                      "multi-section documents must clear rtf_page.border_first for sections after the first and border_last for sections before the last (on a copy)")
-    if "'rtf_page': section_page" not in txt:
-        ctx.violation("R07.5", fi.short, "section page not used", fi.where(), "the per-section page copy is not the one the section is encoded with")
+    ps = _params(fi)
+    if len(ps) != 1:
+        ctx.gap("R07.5", "_encode_multi_section no longer takes (document)")
+        return
+    doc = ps[0]
+    bad: dict[str, str] = {}
+    n_calls = 0
+    for n in (1, 2, 3):
+        dfs, bodies = [Sym(f"D{k}") for k in range(n)], [Sym(f"B{k}", "RTFBody") for k in range(n)]
+        for regime in (True, False):
+            dt = _flow(pm, classes={doc: "RTFDocument", "self": "UnifiedRTFEncoder"}, preset={f"{doc}.df": dfs, f"{doc}.rtf_body": bodies},
+                       effect_calls={"_encode_body_section"}, relevant=("<none>",), regime=regime, max_atoms=40, opaque={"to_list", "update_row"})
+            rows = _table(ctx, "R07.5", dt, fi, {"self": Sym("self", "UnifiedRTFEncoder"), doc: Sym(doc, "RTFDocument")}, "_encode_multi_section")
+            if rows is None:
+                return
+            for v, r in rows:
+                if r.raised is not None:
+                    continue
+                calls = [e for e in r.effects if e[0] == "call" and e[1] == "_encode_body_section"]
+                cp = _copies(r)
+                if len(calls) != n:
+                    bad.setdefault(f"{len(calls)} section(s) encoded for {n}", f"{len(calls)} section(s) are encoded for a document of {n} section(s)")
+                    continue
+                for k, e in enumerate(calls):
+                    n_calls += 1
+                    d = str(e[4].get("document", e[3][0] if e[3] else "?"))
+                    page = r.stores.get(f"{d}.rtf_page")
+                    if d not in cp or page is None:
+                        ctx.gap("R07.5", f"section {k}: the document the section is encoded with (`{d}`) is not a copy of the document with its own rtf_page")
+                        continue
+                    pp = page.path if isinstance(page, Sym) else str(page)
+                    if pp not in cp or cp[pp][0] != f"{doc}.rtf_page":
+                        if pp == f"{doc}.rtf_page":
+                            cleared = [a for a in ("border_first", "border_last") if f"{pp}.{a}" in r.stores]
+                            if cleared:
+                                bad.setdefault("section borders cleared on the shared page", f"section {k} of {n}: {cleared} are cleared on document.rtf_page itself, not on a per-section copy")
+                                continue
+                        ctx.gap("R07.5", f"section {k}: the page configuration `{pp}` is not a copy of {doc}.rtf_page")
+                        continue
+                    for attr, want in (("border_first", k > 0), ("border_last", k < n - 1)):
+                        key = f"{pp}.{attr}"
+                        got = key in r.stores and r.stores[key] is None
+                        kept = key in r.stores and isinstance(r.stores[key], Sym) and r.stores[key].path == f"{doc}.rtf_page.{attr}"
+                        if key in r.stores and r.stores[key] is not None and not kept:
+                            ctx.gap("R07.5", f"section {k}: {attr} of the section page is set to `{r.stores[key]}`")
+                        elif got != want:
+                            bad.setdefault(f"section borders {attr} {'cleared' if got else 'kept'} for section {k} of {n}",
+                                           f"section {k} of {n}: rtf_page.{attr} is {'cleared' if got else 'kept'}; it must be cleared " +
+                                           ("for every section after the first" if attr == "border_first" else "for every section before the last") + " and only there")
+    ctx.instance("R07.5", fi.where(), f"multi-section: {n_calls} section encodings on models of 1-3 sections: per-section copy of rtf_page, border_first cleared iff not first, "
+                 f"border_last cleared iff not last: {len(bad)} disagreement(s)")
+    if not n_calls:
+        ctx.gap("R07.5", "no section encoding was reached on the multi-section models")
+    for k, msg in sorted(bad.items()):
+        ctx.violation("R07.5", fi.short, k, fi.where(), "multi-section documents must clear rtf_page.border_first for sections after the first and border_last for sections "
+                      "before the last (on a copy): " + msg)
 
+
+# ---------------------------------------------------------------------------------------------------- R07.6
 
 def r07_6(ctx: Ctx) -> None:
     """every page goes through the processor, and the processed page is what gets rendered"""
     pm = ctx.pm
+    from ..cfg import CFG
     fi = pm.func("UnifiedRTFEncoder._encode_body_section")
-    loops = [n for n in walk_no_nested(fi.node) if isinstance(n, ast.For) and "pages" in unparse(n.iter)]
-    main = [lp for lp in loops if any(isinstance(c, ast.Call) and dotted(c.func).endswith("renderer.render") for c in ast.walk(lp))]
-    if not main:
-        ctx.violation("R07.6", fi.short, "no page loop", fi.where(), "pages are no longer rendered one by one in _encode_body_section")
-        return
-    lp = main[0]
-    pv = lp.target.elts[-1].id if isinstance(lp.target, ast.Tuple) else (lp.target.id if isinstance(lp.target, ast.Name) else "page")
-    proc = [s for s in lp.body if isinstance(s, ast.Assign) and isinstance(s.value, ast.Call) and dotted(s.value.func).endswith("feature_processor.process")]
-    cond_proc = [c for c in ast.walk(lp) if isinstance(c, ast.Call) and dotted(c.func).endswith("feature_processor.process")]
-    rend = [c for c in ast.walk(lp) if isinstance(c, ast.Call) and dotted(c.func).endswith("renderer.render")]
-    ok = len(proc) == 1 and len(cond_proc) == 1 and [unparse(a) for a in proc[0].value.args] == ["document", pv]
-    res = unparse(proc[0].targets[0]) if proc else "?"
-    ok_r = len(rend) == 1 and [unparse(a) for a in rend[0].args] == ["document", res] and not any(isinstance(a, (ast.If, ast.Try)) for a in _anc(rend[0], lp))
-    skips = [x for s in lp.body for x in ast.walk(s) if isinstance(x, (ast.Continue, ast.Break))]
-    ctx.instance("R07.6", fi.where(lp), f"page loop: process(document, {pv}) unconditional at loop top level: {ok}; render(document, {res}) unconditional: {ok_r}; continue/break: {len(skips)}")
-    if not ok or skips:
-        ctx.violation("R07.6", fi.short, "processor not applied to every page", fi.where(lp),
-                      "PageFeatureProcessor.process is not applied unconditionally to every page (cached/skipped pages keep no border overrides for footnote/source rows)")
-    if not ok_r:
-        ctx.violation("R07.6", fi.short, "render argument", fi.where(lp), "the rendered page is not the processor's result for that page")
+    rend = [c for c in walk_no_nested(fi.node) if isinstance(c, ast.Call) and isinstance(c.func, ast.Attribute) and c.func.attr == "render" and "renderer" in dotted(c.func)]
+    proc = [c for c in walk_no_nested(fi.node) if isinstance(c, ast.Call) and isinstance(c.func, ast.Attribute) and c.func.attr == "process" and "processor" in dotted(c.func)]
+    if not rend or not proc:
+        ctx.gap("R07.6", f"{fi.short}: the calls of the page processor / renderer could not be re-identified ({len(proc)} process, {len(rend)} render)")
+    else:
+        g = CFG(fi.node)
+        r_nodes = [nd for c in rend for nd in g.node_containing(c)]
+        p_nodes = [nd for c in proc for nd in g.node_containing(c)]
+        loops = [a for a in _anc(rend[0], fi.node) if isinstance(a, (ast.For, ast.While))]
+        comp = [a for a in _anc(rend[0], fi.node) if isinstance(a, (ast.ListComp, ast.GeneratorExp))]
+        ok_path = True
+        skipped = False
+        if loops:
+            heads = [nd for nd in g.nodes if nd.kind == "loop" and nd.ast is loops[0]]
+            inside_r = [nd for nd in r_nodes]
+            # a path from the loop head to a render that avoids every process call: an unprocessed page is rendered
+            for h in heads:
+                for start in h.succ[:1]:
+                    if start in p_nodes:
+                        continue
+                    reach = g.reachable(start, exceptional=False, blocked=p_nodes + [h])
+                    if any(id(x) in reach for x in inside_r):
+                        ok_path = False
+                # a path through the body back to the head that avoids render: a page is dropped
+                for start in h.succ[:1]:
+                    reach = g.reachable(start, exceptional=False, blocked=inside_r)
+                    if id(h) in reach and start not in inside_r:
+                        skipped = True
+        elif not comp:
+            ctx.gap("R07.6", f"{fi.short}: pages are not rendered in a loop over the pages")
+        # the rendered page is the processor's result for a page of the pagination
+        arg = rend[0].args[1] if len(rend[0].args) > 1 else next((k.value for k in rend[0].keywords if k.arg == "page"), None)
+        asg = assignments(fi.node)
+
+        def loop_iters(name):
+            out = []
+            for nd in ast.walk(fi.node):
+                tg_it = [(nd.target, nd.iter)] if isinstance(nd, (ast.For, ast.comprehension)) else []
+                for tg, it in tg_it:
+                    if isinstance(tg, ast.Name) and tg.id == name:
+                        out.append(it)
+                    elif isinstance(tg, (ast.Tuple, ast.List)) and any(isinstance(x, ast.Name) and x.id == name for x in tg.elts):
+                        k = next(i_ for i_, x in enumerate(tg.elts) if isinstance(x, ast.Name) and x.id == name)
+                        if isinstance(it, ast.Call) and dotted(it.func) == "enumerate" and it.args and k == 1:
+                            out.append(it.args[0])
+                        else:
+                            out.append(None)
+            return out
+
+        def trace(e, seen=()):
+            """kinds of value an expression can stand for: processed (result of the processor), raw (a page as paginated), unknown"""
+            if e is None:
+                return {"unknown"}
+            if isinstance(e, ast.Call) and isinstance(e.func, ast.Attribute) and e.func.attr == "process":
+                return {"processed"}
+            if isinstance(e, ast.Call) and isinstance(e.func, ast.Attribute) and e.func.attr == "paginate":
+                return {"raw"}
+            if isinstance(e, ast.Call) and dotted(e.func).split(".")[-1] == "PageContext":
+                return {"raw"}
+            if isinstance(e, (ast.ListComp, ast.GeneratorExp)):
+                return trace(e.elt, seen)
+            if isinstance(e, (ast.List, ast.Tuple)):
+                return set().union(*[trace(x, seen) for x in e.elts]) if e.elts else set()
+            if isinstance(e, ast.Call) and dotted(e.func) in ("list", "tuple", "iter", "reversed", "sorted") and e.args:
+                return trace(e.args[0], seen)
+            if isinstance(e, ast.IfExp):
+                return trace(e.body, seen) | trace(e.orelse, seen)
+            if isinstance(e, ast.Name):
+                if e.id in seen or len(seen) > 10:
+                    return set()
+                vals = asg.get(e.id, [])
+                if not vals:
+                    return {"unknown"}
+                out = set()
+                for v in vals:
+                    if isinstance(v, ast.Constant) and isinstance(v.value, str) and v.value.startswith("<"):
+                        if v.value == "<loop>":
+                            for it in loop_iters(e.id):
+                                out |= trace(it, seen + (e.id,))
+                        else:
+                            out.add("unknown")
+                    else:
+                        out |= trace(v, seen + (e.id,))
+                return out
+            return {"unknown"}
+        kinds = trace(arg) if arg is not None else {"unknown"}
+        same_loop = bool(loops) and any(loops[0] in list(_anc(c, fi.node)) for c in proc)
+        ctx.instance("R07.6", fi.where(rend[0]), f"page loop: render receives `{unparse(arg)[:50] if arg is not None else '?'}`, which stands for {sorted(kinds)} pages; "
+                     f"every path to render passes process: {ok_path if same_loop else 'n/a (processed beforehand)'}; pages dropped: {skipped}")
+        if "raw" in kinds:
+            ctx.violation("R07.6", fi.short, "render argument", fi.where(rend[0]), f"the rendered page `{unparse(arg)[:60]}` can be a page as paginated, not the processor's result for that page")
+        elif "unknown" in kinds or not kinds:
+            ctx.gap("R07.6", f"{fi.short}: what render receives (`{unparse(arg)[:60] if arg is not None else '?'}`) could not be traced to the processor")
+        if same_loop and not ok_path:
+            ctx.violation("R07.6", fi.short, "processor not applied to every page", fi.where(rend[0]),
+                          "PageFeatureProcessor.process is not applied unconditionally to every page (cached/skipped pages keep no border overrides for footnote/source rows)")
+        elif skipped:
+            ctx.violation("R07.6", fi.short, "processor not applied to every page", fi.where(rend[0]), "some path through the page loop renders nothing for a page (continue/break before render)")
+        for c in proc:
+            pa = c.args[1] if len(c.args) > 1 else next((k.value for k in c.keywords if k.arg == "page"), None)
+            if pa is not None and trace(pa) and "raw" not in trace(pa) and "unknown" not in trace(pa):
+                ctx.violation("R07.6", fi.short, "processor argument", fi.where(c), f"the processor is applied to `{unparse(pa)[:60]}`, not to a page of the pagination")
+    # process = store this page's border attributes, return the page
     p = pm.func("PageFeatureProcessor.process")
-    t = unparse(p.node)
-    ok_p = "page.final_body_attrs = self._apply_pagination_borders(document, page)" in t and "return page" in t
-    ctx.instance("R07.6", p.where(), f"process stores _apply_pagination_borders(document, page) into page.final_body_attrs and returns the page: {ok_p}")
-    if not ok_p:
-        ctx.violation("R07.6", p.short, "process body", p.where(), "process no longer computes this page's border attributes from (document, page)")
+    ps = _params(p)
+    if len(ps) != 2:
+        ctx.gap("R07.6", "PageFeatureProcessor.process no longer takes (document, page)")
+    else:
+        dt = _flow(pm, classes={"self": "PageFeatureProcessor", ps[1]: "PageContext"}, effect_calls={"_apply_pagination_borders"}, relevant=("<none>",), regime=True, max_atoms=10)
+        rows = _table(ctx, "R07.6", dt, p, {"self": Sym("self", "PageFeatureProcessor"), ps[0]: Sym(ps[0]), ps[1]: Sym(ps[1], "PageContext")}, "PageFeatureProcessor.process")
+        if rows is not None:
+            ok_p = bool(rows)
+            why = ""
+            for v, r in rows:
+                calls = [(i + 1, e) for i, e in enumerate(r.effects) if e[0] == "call" and e[1] == "_apply_pagination_borders"]
+                st = [e for e in r.effects if e[0] == "store" and e[1] == ps[1] and e[2] == "final_body_attrs"]
+                if len(calls) != 1 or tuple(str(x) for x in calls[0][1][3]) != (ps[0], ps[1]):
+                    ok_p, why = False, f"_apply_pagination_borders called {[c[1][3] for c in calls]}"
+                elif not st or not str(st[-1][3]).endswith(f"(…)#{calls[0][0]}"):
+                    ok_p, why = False, f"final_body_attrs <- {[e[3] for e in st]}"
+                elif not (isinstance(r.ret, Sym) and r.ret.path == ps[1]):
+                    ok_p, why = False, f"returns {r.ret}"
+            ctx.instance("R07.6", p.where(), f"process stores _apply_pagination_borders(document, page) into page.final_body_attrs and returns the page: {ok_p} {why}")
+            if not ok_p:
+                ctx.violation("R07.6", p.short, "process body", p.where(), f"process no longer computes this page's border attributes from (document, page): {why}")
     rb = pm.func("PageRenderer._render_body")
-    first = next((unparse(a.value) for a in walk_no_nested(rb.node) if isinstance(a, ast.Assign) and unparse(a.targets[0]) == "page_attrs"), "?")
-    ctx.instance("R07.6", rb.where(), f"_render_body uses page_attrs = {first}")
-    if not first.startswith("page.final_body_attrs or"):
-        ctx.violation("R07.6", rb.short, "page_attrs = " + first, rb.where(), "the body is not rendered with the page's own finalized border attributes")
+    uses = [x for x in walk_no_nested(rb.node) if isinstance(x, ast.Attribute) and x.attr == "final_body_attrs" and isinstance(x.ctx, ast.Load)]
+    if not uses:
+        ctx.gap("R07.6", "_render_body: the use of page.final_body_attrs could not be re-identified")
+    else:
+        par = getattr(uses[0], "_parent", None)
+        first = isinstance(par, ast.BoolOp) and isinstance(par.op, ast.Or) and par.values[0] is uses[0] or isinstance(par, (ast.Assign, ast.IfExp, ast.Compare, ast.If, ast.Call, ast.keyword))
+        ctx.instance("R07.6", rb.where(uses[0]), f"_render_body takes the page's finalized attributes first: `{unparse(par)[:70] if par is not None else '?'}`")
+        if isinstance(par, ast.BoolOp) and not first:
+            ctx.violation("R07.6", rb.short, "page_attrs = " + unparse(par)[:60], rb.where(uses[0]), "the body is not rendered with the page's own finalized border attributes first")
 
 
 def _anc(n, stop):
@@ -354,9 +735,11 @@ def check(ctx: Ctx) -> None:
         "_should_show_element inlined) is evaluated as a decision table over symbolic configuration atoms with lazy atom "
         "discovery; every leaf's effects (which row, which side, which style source; component border overrides) are compared "
         "with the documented three-tier hierarchy on every configuration of first/last x header x footnote{text,as_table,"
-        "placement} x source{…} (exhaustive). R07.2 header top-edge site. R07.3 override consumers. R07.4 per-page deep copy, "
-        "single-cell update through per-row-fresh matrices, no other border stores, data cells read their own (i,j). "
-        "R07.5 multi-section first/last clearing.")
+        "placement} x source{…} (exhaustive). R07.2 the header renderer evaluated on the three shapes of rtf_column_header: which "
+        "header copy gets rtf_page.border_first on row 0, on which pages. R07.3 render hands page.component_borders[c] to the encoder; "
+        "the encoder evaluated with/without override: bottom border of a copy, which is what gets encoded. R07.4 per-page deep copy, "
+        "single-cell update evaluated symbolically and on concrete blocks, to_list freshness (tablecore), no other border stores, data cells "
+        "read their own (i,j). R07.5 multi-section first/last clearing on models of 1-3 sections. R07.6 path property of the page loop.")
     ctx.assume("a configured column-header list renders at least one header row on the first page (the Hl/Hr distinction of DESIGN.md appendix C is not decided)")
     ctx.assume("border styles rtf_page.border_first/last and rtf_body.border_first/last are non-empty (when empty there is nothing to apply)")
     ctx.undecided("border widths and colours (never emitted, see C09); page_by without column headers (excluded by the property for the top-edge clause)")
